@@ -45,6 +45,23 @@ def program_sources(seed, ngen, with_corpus=True, corpus_limit=None, ncasc=None)
     for i in range(max(10, (ngen if ncasc is None else ncasc) // 4)):
         out.append(("macro%d" % i, {"mode": "asm", "files": {"main.asm": genasm.render_macro_program(genasm.gen_macro_program(rng))},
                                     "roots": ["main.asm"]}))
+    # macros whose blocks hold labels and instructions whose sizes depend on them (an inner resolution loop with
+    # something to resolve)
+    from . import asm as _asm
+    for i, (mt, _) in enumerate(_asm.inline_pairs(rng, max(8, (ngen if ncasc is None else ncasc) // 6))):
+        out.append(("blockloop%d" % i, {"mode": "asm", "files": {"main.asm": mt}, "roots": ["main.asm"]}))
+    # a block with two labels where instructions change size with the label they read (thresholds at the first addresses):
+    # the earlier label may still be moving in a pass in which the later one has already settled
+    k = 0
+    for t1 in (1, 2):
+        for t2 in (1, 2, 3):
+            for body in ("bra a\n      a:\n        pad a\n      b:\n        jmp b", "pad b\n      a:\n        bra b\n      b:\n        jmp a",
+                         "bra b\n        pad a\n      a:\n        pad b\n      b:\n        jmp a"):
+                text = ("#ruledef\n{\n    bra {x} => { assert(x < %d), 0xb0 }\n    bra {x} => { assert(x >= %d), 0xb1 @ x`8 }\n"
+                        "    pad {x} => { assert(x < %d), 0xc0 @ x`8 }\n    pad {x} => { assert(x >= %d), 0xc1 }\n    jmp {x} => 0xe0 @ x`8\n\n"
+                        "    test => asm\n    {\n        %s\n    }\n}\n\ntest\n" % (t1, t1, t2, t2, body))
+                out.append(("blockmove%d" % k, {"mode": "asm", "files": {"main.asm": text}, "roots": ["main.asm"]}))
+                k += 1
     # constants read from files (statically known by classification, but not computable before the files are read)
     for i in range(max(4, (ngen if ncasc is None else ncasc) // 25)):
         fn_, fname, content = rng.choice([("incbin", "data.bin", "\x2a\x33"), ("inchexstr", "h.txt", "beef"), ("incbinstr", "b.txt", "1010_0101")])
